@@ -99,6 +99,24 @@ func acceptableModuloOwnParams(l leaf, fnName string) bool {
 	return ok
 }
 
+// isJSStringEscaper: a function of package runtime that decodes its input rune by rune (utf8.DecodeRuneInString) and
+// writes into a builder — the in-literal JavaScript escaper, whatever it is called and whether or not it is a method.
+func isJSStringEscaper(fn *ssa.Function) bool {
+	if fn.Pkg == nil || fn.Pkg.Pkg.Path() != modPath+"/runtime" {
+		return false
+	}
+	for _, b := range fn.Blocks {
+		for _, ins := range b.Instrs {
+			if call, ok := ins.(*ssa.Call); ok {
+				if cal := call.Common().StaticCallee(); cal != nil && ssaFuncName(cal) == "unicode/utf8.DecodeRuneInString" {
+					return true
+				}
+			}
+		}
+	}
+	return false
+}
+
 // ownParamsOnly: the leaf is a parameter of fnName itself (possibly inside concatenations/calls that are otherwise acceptable).
 func ownParamsOnly(l leaf, fnName string) bool {
 	switch l.Kind {
@@ -162,6 +180,45 @@ func htmlSinkOperands(c *Ctx, f *flow, rule string) {
 		if fn.Object() != nil && !fn.Object().Exported() && fn.Signature.Recv() == nil {
 			onlyCalled[fn] = true
 		}
+		// a local closure (writeAttr := func(name, value string) error {…}) whose only uses are calls in its parent
+		if fn.Object() == nil && fn.Parent() != nil {
+			used, onlyCalls := false, true
+			for _, b := range fn.Parent().Blocks {
+				for _, ins := range b.Instrs {
+					mc, ok := ins.(*ssa.MakeClosure)
+					if !ok || mc.Fn != ssa.Value(fn) {
+						continue
+					}
+					used = true
+					if refs := mc.Referrers(); refs != nil {
+						for _, r := range *refs {
+							ci, isCall := r.(ssa.CallInstruction)
+							if !isCall || ci.Common().Value != ssa.Value(mc) {
+								onlyCalls = false
+							}
+						}
+					}
+				}
+			}
+			// closures without free variables are plain function values
+			if !used {
+				for _, b := range fn.Parent().Blocks {
+					for _, ins := range b.Instrs {
+						for _, op := range ins.Operands(nil) {
+							if op != nil && *op == ssa.Value(fn) {
+								used = true
+								if ci, isCall := ins.(ssa.CallInstruction); !isCall || ci.Common().Value != ssa.Value(fn) {
+									onlyCalls = false
+								}
+							}
+						}
+					}
+				}
+			}
+			if used && onlyCalls {
+				onlyCalled[fn] = true
+			}
+		}
 	}
 	for _, fn := range fns {
 		for _, b := range fn.Blocks {
@@ -175,6 +232,9 @@ func htmlSinkOperands(c *Ctx, f *flow, rule string) {
 						continue
 					}
 					if f2, ok := (*op).(*ssa.Function); ok && *op != callee {
+						if mc, isMC := ins.(*ssa.MakeClosure); isMC && mc.Fn == *op && f2.Object() == nil {
+							continue // the creation of a local closure whose uses were examined above
+						}
 						delete(onlyCalled, f2) // used as a value
 					}
 				}
@@ -195,7 +255,11 @@ func htmlSinkOperands(c *Ctx, f *flow, rule string) {
 		for _, s := range findSinks(fn) {
 			nsinks++
 			ord[s.Kind]++
-			if why, exempt := nonHTMLWriters[name]; exempt && s.Kind != "Writer.Write" && s.Kind != "Builder.WriteString" || exempt && why != "" && !strings.Contains(why, "SafeCSS") {
+			why, exempt := nonHTMLWriters[name]
+			if !exempt && isJSStringEscaper(fn) {
+				why, exempt = "implements the JavaScript string escaper itself (rune loop over utf8.DecodeRuneInString with replacement tables); its tables are checked by C03.R1", true
+			}
+			if exempt && s.Kind != "Writer.Write" && s.Kind != "Builder.WriteString" || exempt && why != "" && !strings.Contains(why, "SafeCSS") {
 				c.ok(rule, fmt.Sprintf("%s|%s#%d", name, s.Kind, ord[s.Kind]), c.pos(s.Pos), "not an HTML sink: "+why)
 				continue
 			}
@@ -279,6 +343,9 @@ func htmlSinkOperands(c *Ctx, f *flow, rule string) {
 				}
 				if why, ex := nonHTMLWriters[ssaFuncName(callee)]; ex && !strings.HasPrefix(why, "forwarding wrapper") {
 					continue // the callee is tabled as not being an HTML sink
+				}
+				if isJSStringEscaper(callee) {
+					continue
 				}
 				if types.Object(callee.Object()) != nil && callee.Object().Exported() {
 					continue // exported API: its parameter is the caller's responsibility; tabled in nonHTMLWriters or reported at the sink
